@@ -87,6 +87,12 @@ SPIF_TYPE(strclass) SPIF_STRCLASS_VAR(str) = &s_class;
 
 static const size_t buff_inc = 4096;
 
+/* Text of a string for read-only use.  A string which has never been
+   filled (or has been done) has no buffer; its text is the empty string. */
+#define STR_TEXT(obj)  ((const char *) ((SPIF_STR_ISNULL(obj) || (SPIF_STR(obj)->s == (spif_charptr_t) NULL)) \
+                                        ? ((spif_charptr_t) "") \
+                                        : (SPIF_STR(obj)->s)))
+
 spif_str_t
 spif_str_new(void)
 {
@@ -418,7 +424,7 @@ spif_str_casecmp(spif_str_t self, spif_str_t other)
     int c;
 
     SPIF_OBJ_COMP_CHECK_NULL(self, other);
-    c = strcasecmp((char *) SPIF_STR_STR(self), (char *) SPIF_STR_STR(other));
+    c = strcasecmp(STR_TEXT(self), STR_TEXT(other));
     return SPIF_CMP_FROM_INT(c);
 }
 
@@ -428,7 +434,7 @@ spif_str_casecmp_with_ptr(spif_str_t self, spif_charptr_t other)
     int c;
 
     SPIF_OBJ_COMP_CHECK_NULL(self, other);
-    c = strcasecmp((char *) SPIF_STR_STR(self), (char *) other);
+    c = strcasecmp(STR_TEXT(self), (char *) other);
     return SPIF_CMP_FROM_INT(c);
 }
 
@@ -447,7 +453,7 @@ spif_str_cmp(spif_str_t self, spif_str_t other)
     int c;
 
     SPIF_OBJ_COMP_CHECK_NULL(self, other);
-    c = strcmp((char *) SPIF_STR_STR(self), (char *) SPIF_STR_STR(other));
+    c = strcmp(STR_TEXT(self), STR_TEXT(other));
     return SPIF_CMP_FROM_INT(c);
 }
 
@@ -457,7 +463,7 @@ spif_str_cmp_with_ptr(spif_str_t self, spif_charptr_t other)
     int c;
 
     SPIF_OBJ_COMP_CHECK_NULL(self, other);
-    c = strcmp((char *) SPIF_STR_STR(self), (char *) other);
+    c = strcmp(STR_TEXT(self), (char *) other);
     return SPIF_CMP_FROM_INT(c);
 }
 
@@ -477,13 +483,15 @@ spif_stridx_t
 spif_str_find(spif_str_t self, spif_str_t other)
 {
     char *tmp;
+    const char *text;
 
     ASSERT_RVAL(!SPIF_STR_ISNULL(self), ((spif_stridx_t) -1));
     REQUIRE_RVAL(!SPIF_STR_ISNULL(other), ((spif_stridx_t) -1));
-    tmp = strstr((const char *) SPIF_STR_STR(self),
-                 (const char *) SPIF_STR_STR(other));
+    text = STR_TEXT(self);
+    tmp = strstr(text,
+                 STR_TEXT(other));
     if (tmp) {
-        return (spif_stridx_t) ((spif_long_t) tmp - (spif_long_t) (SPIF_STR_STR(self)));
+        return (spif_stridx_t) ((spif_long_t) tmp - (spif_long_t) text);
     } else {
         return (spif_stridx_t) (self->len);
     }
@@ -493,13 +501,15 @@ spif_stridx_t
 spif_str_find_from_ptr(spif_str_t self, spif_charptr_t other)
 {
     char *tmp;
+    const char *text;
 
     ASSERT_RVAL(!SPIF_STR_ISNULL(self), ((spif_stridx_t) -1));
     REQUIRE_RVAL((other != (spif_charptr_t) NULL), ((spif_stridx_t) -1));
-    tmp = strstr((const char *) SPIF_STR_STR(self),
+    text = STR_TEXT(self);
+    tmp = strstr(text,
                  (const char *) other);
     if (tmp) {
-        return (spif_stridx_t) ((spif_long_t) tmp - (spif_long_t) (SPIF_STR_STR(self)));
+        return (spif_stridx_t) ((spif_long_t) tmp - (spif_long_t) text);
     } else {
         return (spif_stridx_t) (self->len);
     }
@@ -509,11 +519,13 @@ spif_stridx_t
 spif_str_index(spif_str_t self, spif_char_t c)
 {
     char *tmp;
+    const char *text;
 
     ASSERT_RVAL(!SPIF_STR_ISNULL(self), ((spif_stridx_t) -1));
-    tmp = index((const char *) SPIF_STR_STR(self), c);
+    text = STR_TEXT(self);
+    tmp = index(text, c);
     if (tmp) {
-        return (spif_stridx_t) ((spif_long_t) tmp - (spif_long_t) (SPIF_STR_STR(self)));
+        return (spif_stridx_t) ((spif_long_t) tmp - (spif_long_t) text);
     } else {
         return (spif_stridx_t) (self->len);
     }
@@ -525,7 +537,7 @@ spif_str_ncasecmp(spif_str_t self, spif_str_t other, spif_stridx_t cnt)
     int c;
 
     SPIF_OBJ_COMP_CHECK_NULL(self, other);
-    c = strncasecmp((char *) SPIF_STR_STR(self), (char *) SPIF_STR_STR(other), cnt);
+    c = strncasecmp(STR_TEXT(self), STR_TEXT(other), cnt);
     return SPIF_CMP_FROM_INT(c);
 }
 
@@ -535,7 +547,7 @@ spif_str_ncasecmp_with_ptr(spif_str_t self, spif_charptr_t other, spif_stridx_t 
     int c;
 
     SPIF_OBJ_COMP_CHECK_NULL(self, other);
-    c = strncasecmp((char *) SPIF_STR_STR(self), (char *) other, cnt);
+    c = strncasecmp(STR_TEXT(self), (char *) other, cnt);
     return SPIF_CMP_FROM_INT(c);
 }
 
@@ -545,7 +557,7 @@ spif_str_ncmp(spif_str_t self, spif_str_t other, spif_stridx_t cnt)
     int c;
 
     SPIF_OBJ_COMP_CHECK_NULL(self, other);
-    c = strncmp((char *) SPIF_STR_STR(self), (char *) SPIF_STR_STR(other), cnt);
+    c = strncmp(STR_TEXT(self), STR_TEXT(other), cnt);
     return SPIF_CMP_FROM_INT(c);
 }
 
@@ -555,7 +567,7 @@ spif_str_ncmp_with_ptr(spif_str_t self, spif_charptr_t other, spif_stridx_t cnt)
     int c;
 
     SPIF_OBJ_COMP_CHECK_NULL(self, other);
-    c = strncmp((char *) SPIF_STR_STR(self), (char *) other, cnt);
+    c = strncmp(STR_TEXT(self), (char *) other, cnt);
     return SPIF_CMP_FROM_INT(c);
 }
 
@@ -617,11 +629,13 @@ spif_stridx_t
 spif_str_rindex(spif_str_t self, spif_char_t c)
 {
     char *tmp;
+    const char *text;
 
     ASSERT_RVAL(!SPIF_STR_ISNULL(self), ((spif_stridx_t) -1));
-    tmp = rindex((const char *) SPIF_STR_STR(self), c);
+    text = STR_TEXT(self);
+    tmp = rindex(text, c);
     if (tmp) {
-        return (spif_stridx_t) ((spif_long_t) tmp - (spif_long_t) (SPIF_STR_STR(self)));
+        return (spif_stridx_t) ((spif_long_t) tmp - (spif_long_t) text);
     } else {
         return (spif_stridx_t) (self->len);
     }
@@ -790,14 +804,14 @@ double
 spif_str_to_float(spif_str_t self)
 {
     ASSERT_RVAL(!SPIF_STR_ISNULL(self), (double) NAN);
-    return (double) (strtod((const char *)SPIF_STR_STR(self), (char **) NULL));
+    return (double) (strtod(STR_TEXT(self), (char **) NULL));
 }
 
 size_t
 spif_str_to_num(spif_str_t self, int base)
 {
     ASSERT_RVAL(!SPIF_STR_ISNULL(self), ((size_t) -1));
-    return (size_t) (strtoul((const char *) SPIF_STR_STR(self), (char **) NULL, base));
+    return (size_t) (strtoul(STR_TEXT(self), (char **) NULL, base));
 }
 
 spif_bool_t
